@@ -1,8 +1,3 @@
-// Package c18: stub (property not built yet).
+// Package c18: the HTTP blob protocol end to end (in-process servers built from high-level
+// configurations, raw requests and pkg/client) against the Lean model Pk.BlobHTTP and the reference map.
 package c18
-
-import "verifharness/hk"
-
-func NewExec() func(w []string) string { return func([]string) string { return "bad-op" } }
-
-func Run(r *hk.Run) { r.Note("not built yet") }
